@@ -57,6 +57,14 @@ pub fn constructs() -> Vec<K> {
       arity: 1,
       build: |o| T::InList(bx(&o[0]), vec![T::Unary(UOp::Lt, Box::new(num(1))), T::Unary(UOp::Ge, Box::new(num(2)))]),
     },
+    // unary tests over strings, each comparison on its own (the end point is one of the string leaves, so that equality is reached)
+    K { name: "in-unary-str-lt", arity: 1, build: |o| T::Bin(Op::In, bx(&o[0]), Box::new(T::Unary(UOp::Lt, Box::new(st("b"))))) },
+    K { name: "in-unary-str-le", arity: 1, build: |o| T::Bin(Op::In, bx(&o[0]), Box::new(T::Unary(UOp::Le, Box::new(st("a"))))) },
+    K { name: "in-unary-str-gt", arity: 1, build: |o| T::Bin(Op::In, bx(&o[0]), Box::new(T::Unary(UOp::Gt, Box::new(st("a"))))) },
+    K { name: "in-unary-str-ge", arity: 1, build: |o| T::Bin(Op::In, bx(&o[0]), Box::new(T::Unary(UOp::Ge, Box::new(st("b"))))) },
+    K { name: "in-unary-str-list", arity: 1, build: |o| T::InList(bx(&o[0]), vec![T::Unary(UOp::Lt, Box::new(st("a"))), T::Unary(UOp::Ge, Box::new(st("b")))]) },
+    K { name: "in-unary-num-ge", arity: 1, build: |o| T::Bin(Op::In, bx(&o[0]), Box::new(T::Unary(UOp::Ge, Box::new(num(1))))) },
+    K { name: "in-unary-num-le", arity: 1, build: |o| T::Bin(Op::In, bx(&o[0]), Box::new(T::Unary(UOp::Le, Box::new(num(1))))) },
     K { name: "in-unary-le-gt", arity: 1, build: |o| T::InList(bx(&o[0]), vec![T::Unary(UOp::Le, Box::new(num(0))), T::Unary(UOp::Gt, Box::new(v("x")))]) },
     K { name: "list1", arity: 1, build: |o| T::List(vec![o[0].clone()]) },
     K { name: "list2", arity: 2, build: |o| T::List(vec![o[0].clone(), o[1].clone()]) },
